@@ -35,10 +35,15 @@ fn prime_box_calls(pk: &[u8; 32], sk: &[u8; 32], n: &[u8; 24]) {
     let (other_pk, _) = crypto_box_keypair();
     let junk = [0x11u8; 16 + 5];
     let mut out = [0u8; 5];
-    let _ = crypto_box_open_easy(&mut out, &junk, n, pk, &other_sk);
-    let _ = crypto_box_open_easy(&mut out, &junk, n, &other_pk, sk);
-    let mut c = [0u8; 16 + 5];
-    let _ = crypto_box_easy(&mut c, b"prime", n, pk, &other_sk);
+    // the LAST related call before the real one shares the peer key (nonce[0] even) or the own secret key (odd) with it, so that a
+    // memory keyed on either half alone is caught by about half of the requests
+    if n[0] % 2 == 0 {
+        let _ = crypto_box_open_easy(&mut out, &junk, n, &other_pk, sk);
+        let _ = crypto_box_open_easy(&mut out, &junk, n, pk, &other_sk);
+    } else {
+        let _ = crypto_box_open_easy(&mut out, &junk, n, pk, &other_sk);
+        let _ = crypto_box_open_easy(&mut out, &junk, n, &other_pk, sk);
+    }
 }
 
 pub fn dispatch(op: &str, a: &[&str]) -> Option<Ans> {
